@@ -168,6 +168,19 @@ impl<'a> Tokenizer<'a> {
             escaped = !escaped && c == Some('\\');
         }
     }
+
+    /// Skips everything in front of the next token: blanks and single-line comments.
+    /// This is a loop, because skipping them one call to next() at a time needs stack space in
+    /// proportion to the number of blanks and comment lines in the input.
+    fn skip_insignificant(&mut self) {
+        loop {
+            self.skip_while(|c, _| is_whitespace(c));
+            if !self.input[self.offset()..].starts_with("//") {
+                return;
+            }
+            self.skip_while(|c, _| c != '\n');
+        }
+    }
 }
 
 impl<'a> From<&'a str> for Token<'a> {
@@ -194,6 +207,7 @@ impl<'a> Iterator for Tokenizer<'a> {
 
     #[inline]
     fn next(&mut self) -> Option<Self::Item> {
+        self.skip_insignificant();
         let start = self.offset();
         let token = match self.bump()? {
             // Identifiers
